@@ -17,12 +17,16 @@ def sessions(ctx):
 
 
 def run(ctx):
-    return sessbase.run_property(ctx, 'C11',
+    rep = sessbase.run_property(ctx, 'C11',
         'P1: TLC checks ListIsReadOnly / CommandsDoNotRewrite over all behaviours with list queries (matcher, cap absent/0/1/2, '
         'current filter, selected connection) at every point; P2: replayed through the tool; P3: random sessions dense in list '
         'commands (caps beyond the number of matches, repeated queries, malformed matchers and caps). Listed messages (identity '
         'and order), the three counts and the state before/after are compared with Session!ListResult by TLC.',
         [('MC_Session_list.cfg', 'C11 list')], sessions(ctx))
+    # the same through GDB mode (`wl ...` commands typed while the program is halted, messages arriving as closures)
+    from props import gdbbase
+    gdbbase.gdb_batch(ctx, rep, relevant('C11'), ctx.pick(40, 400), 1000333)
+    return rep
 
 
 def replay(ctx, data):
